@@ -225,6 +225,41 @@ class Synth:
         return out, lab + ("*" if flag else ""), hashable and kind not in ("[", "<")
 
 
+BIG_LENGTHS = [(1 << 20) + 5, (1 << 20), 2 * (1 << 20) - 7, 65536 + 1]
+
+
+def make_big_stream(rng, v, form):
+    """A co_consts tuple holding one string-like object whose 4-byte length exceeds 1 MiB (a loader that reads in
+    chunks must not lose the tail), followed by a small witness element that shows the stream position afterwards."""
+    s = Synth(rng, v)
+    n = rng.choice(BIG_LENGTHS)
+    fill = bytes((i * 7 + 3) % 95 + 32 for i in range(251))  # printable ASCII, period 251: truncation changes the value
+    body = (fill * (n // 251 + 1))[:n]
+    if form == "u8":  # non-ASCII UTF-8 text
+        ch = "\u00e9".encode("utf-8")
+        body = (ch * (n // 2 + 1))[: n - (n % 2)]
+        tcode = "u"
+    else:
+        tcode = form
+    flag = s.refs_ok and rng.random() < 0.5
+    big = s.tc(tcode, flag) + le32(len(body)) + body
+    s.reserve(flag)
+    if tcode == "t" and s.py2:
+        s.ninterned += 1
+    tail = s.tc("i") + le32(123456789)
+    consts = b"(" + le32(2) + big + tail
+    return ["big:%s:%d" % (form, len(body)), "int:i"], code_wrapper(v, consts), sorted(s.codes)
+
+
+def big_forms(v):
+    if v < (3, 0):
+        return ["s", "t", "u"]
+    out = ["s", "u", "u8"]
+    if v >= (3, 4):
+        out += ["a", "A", "t"]
+    return out
+
+
 def make_stream(rng, v, n_elems=None):
     """Return (labels, payload_bytes) - the marshal of a minimal code object
     for version v whose co_consts holds the synthesised elements."""
